@@ -301,10 +301,12 @@ func componentCase(c *Case) (*WF, string) {
 	if buf == 0 {
 		buf = 128
 	}
-	kinds := []string{"filecomb", "paramcomb", "selector", "splitter", "concat", "globber", "fileparams", "cmdparams", "sources"}
+	kinds := []string{"filecomb", "paramcomb", "selector", "splitter", "concat", "globber", "fileparams", "cmdparams", "sources", "globdep"}
 	kind := kinds[t.Choose(simrt.StGen, len(kinds), 0)]
 	ports := []string{"a", "b", "c", "d"}
 	switch kind {
+	case "globdep":
+		return globDepWF(c), kind
 	case "filecomb":
 		k := 1 + t.Choose(simrt.StGen, 3, 0)
 		shared := k >= 2 && t.Choose(simrt.StGen, 3, 0) == 1
